@@ -38,7 +38,8 @@ Definition outcome_s (g : graph) (o : outcome) : string :=
 Definition opt_w (g : graph) (ps : list (list Z)) : string :=
   match best g ps with Some p => zs (weight g p) | None => "N"%string end.
 
-Definition run_rq (n : net) (fib : list Z) (r : rq) : string :=
+(* checked = true selects the model of the proposed repair of explicit_path (F11/F11b); false = code of today *)
+Definition run_rq (checked : bool) (n : net) (fib : list Z) (r : rq) : string :=
   let g := ngraph n in
   let s := q_src r in
   let t := q_dst r in
@@ -53,7 +54,7 @@ Definition run_rq (n : net) (fib : list Z) (r : rq) : string :=
       let effps := match sat with [] => all | _ => sat end in
       let c_s := append "c=" (append (zlist_s inc) (flags_s st)) in
       let m_s :=
-        match model_ccp n s t (inc ++ [t]) (st ++ [true]) with
+        match (if checked then model_ccp_checked else model_ccp) n s t (inc ++ [t]) (st ++ [true]) with
         | Err e => append "m=E:" e
         | Ok (CExplicit p) =>
             append "m=X" (append (zs (weight g p))
@@ -86,9 +87,10 @@ Definition run_rq (n : net) (fib : list Z) (r : rq) : string :=
       join "|" [c_s; m_s; s_s; v_s; r_s]
   end.
 
-Definition run_net (g : graph) (kinds : string) (oms : list (list Z * option Z)) (fib : list Z) (rqs : list rq) : string :=
+Definition run_net (checked : bool) (g : graph) (kinds : string) (oms : list (list Z * option Z)) (fib : list Z)
+           (rqs : list rq) : string :=
   let n := mk_net g kinds oms in
-  join ";" (map (run_rq n fib) rqs).
+  join ";" (map (run_rq checked n fib) rqs).
 
 (* large meshes: no enumeration; validator + dual-potential certificate (unconstrained requests) *)
 Definition run_big (g : graph) (cases : list (Z * Z * list Z * list Z)) : string :=
